@@ -35,6 +35,9 @@ def checkP (content : Bytes) (tags : List Entry) (secs : List Sec) (syms : List 
   secs.length == syms.length &&
   sortedDisjoint secs && allWithin content.length secs &&
   (secs.zip syms).all (fun p => coversName content tags p.1 p.2) &&
-  addAccepts content.length secs
+  addAcceptsFull content secs
+
+/-- the property's hypothesis on entry names (they come from encoding/json): valid UTF-8 -/
+def namesValid (tags : List Entry) : Bool := tags.all fun t => Utf8.valid t.name
 
 end ZoektModel.C37
